@@ -347,6 +347,7 @@ type modTarget struct {
 	sort string
 	ref  string // object ref / slice base ("" for whole-key)
 	all  bool
+	lens *Val // derived address: havoc exactly the addressed location
 }
 
 // evalModifies translates the modifies list into memory targets, evaluated in state st.
@@ -386,7 +387,8 @@ func (e *Exec) evalModifies(c *specCtx, list []string) ([]modTarget, error) {
 					out = append(out, modTarget{key: k, sort: srt, ref: v.S})
 				}
 			} else if v.A != nil {
-				out = append(out, modTarget{key: v.A.Key, sort: e.memSort[v.A.Key], ref: v.A.Ref, all: v.A.Kind == ALocal})
+				lv := v.Val
+				out = append(out, modTarget{key: v.A.Key, sort: e.memSort[v.A.Key], ref: v.A.Ref, all: v.A.Kind == ALocal, lens: &lv})
 			} else {
 				k, srt := e.cellKey(pt.Elem())
 				out = append(out, modTarget{key: k, sort: srt, ref: v.S})
@@ -414,6 +416,23 @@ func (e *Exec) evalModifies(c *specCtx, list []string) ([]modTarget, error) {
 				return nil, fmt.Errorf("modifies %s: not a struct", m)
 			}
 			found := false
+			if v.A != nil {
+				// field of a struct reached through a derived address
+				for fi := 0; fi < s.NumFields(); fi++ {
+					if s.Field(fi).Name() == m[i+1:] {
+						na := *v.A
+						na.Steps = append(append([]step(nil), v.A.Steps...), step{field: fi, st: pt.Elem()})
+						na.T = s.Field(fi).Type()
+						lv := Val{T: types.NewPointer(s.Field(fi).Type()), A: &na}
+						out = append(out, modTarget{key: na.Key, sort: e.memSort[na.Key], ref: na.Ref, lens: &lv})
+						found = true
+					}
+				}
+				if !found {
+					return nil, fmt.Errorf("modifies %s: no such field", m)
+				}
+				continue
+			}
 			for fi := 0; fi < s.NumFields(); fi++ {
 				if s.Field(fi).Name() == m[i+1:] {
 					k, srt := e.heapKey(pt.Elem(), fi)
@@ -549,6 +568,11 @@ func (e *Exec) callByContract(st *State, c *FuncContract, callee *ssa.Function, 
 			e.note("CONTRACT-ERROR contract %s: %v", name, err)
 		}
 		for _, t := range targets {
+			if t.lens != nil {
+				el := t.lens.T.Underlying().(*types.Pointer).Elem()
+				e.store(st, *t.lens, e.freshVal(st, "hv.lens", el))
+				continue
+			}
 			if t.sort == "" {
 				continue
 			}
@@ -559,6 +583,7 @@ func (e *Exec) callByContract(st *State, c *FuncContract, callee *ssa.Function, 
 			}
 			elemSort := strings.TrimSuffix(strings.TrimPrefix(t.sort, "(Array Int "), ")")
 			nv := e.sc.fresh("hv."+t.key, elemSort)
+			e.assume(st, e.wfBySort(st, nv, elemSort))
 			e.memSet(st, t.key, t.sort, fmt.Sprintf("(store %s %s %s)", cur, t.ref, nv))
 		}
 		tp := e.top(st)
@@ -681,12 +706,17 @@ func (e *Exec) loopVars(fn *ssa.Function, l *loopInfo, st *State) map[string]Val
 	for n, c := range best {
 		vars[n] = c.v
 	}
-	for _, ins := range fn.Blocks[0].Instrs {
-		if a, ok := ins.(*ssa.Alloc); ok && a.Comment != "" {
-			if v, ok := st.vals[a]; ok {
-				if _, dup := vars[a.Comment]; !dup {
-					lv := e.specLoad(st, v)
-					vars[a.Comment] = lv
+	for _, b := range fn.Blocks {
+		if b != l.header && !b.Dominates(l.header) {
+			continue
+		}
+		for _, ins := range b.Instrs {
+			if a, ok := ins.(*ssa.Alloc); ok && a.Comment != "" {
+				if v, ok := st.vals[a]; ok {
+					if _, dup := vars[a.Comment]; !dup {
+						lv := e.specLoad(st, v)
+						vars[a.Comment] = lv
+					}
 				}
 			}
 		}
@@ -815,6 +845,63 @@ func (e *Exec) cutLoopHead(fn *ssa.Function, fc *FuncContract, l *loopInfo, st *
 			keys["ghost|"+name] = e.sc.sortOf(t)
 		}
 	}
+	// keys for which the function's modifies clause names individual objects
+	// are havocked only at those objects (loop frame rule; checked on the back edge)
+	if fc != nil && fc.HasMod && e.curFn == e.fn && !all {
+		c := e.specEnv(e.entry, nil)
+		if targets, err := e.evalModifies(c, fc.Modifies); err == nil {
+			if e.loopHeads == nil {
+				e.loopHeads = map[int]map[string]loopHeadMem{}
+			}
+			e.loopHeads[l.ordinal] = map[string]loopHeadMem{}
+			for _, k := range sortedKeys(keys) {
+				var refs []string
+				whole := false
+				for _, t := range targets {
+					if t.key == k {
+						if t.all || t.ref == "" {
+							whole = true
+						}
+						refs = append(refs, t.ref)
+					}
+				}
+				if whole || strings.HasPrefix(k, "G|") || strings.HasPrefix(k, "L|") || strings.HasPrefix(k, "IT|") || strings.HasPrefix(k, "ghost|") {
+					continue
+				}
+				if len(refs) == 0 {
+					// not in the modifies list: objects that existed at function entry are
+					// unchanged (checked on loop entry and on the back edge); objects allocated
+					// by this call are arbitrary at the loop head
+					srt := keys[k]
+					cur := e.memGet(st, k, srt)
+					init := e.initMem[k]
+					topE := e.top(e.entry)
+					if cur != init {
+						r := e.sc.fresh("fr", "Int")
+						e.checkPost(st, "frame", fmt.Sprintf("loop%d.entry.%s", l.ordinal, k), imp(fmt.Sprintf("(and (>= %s 0) (< %s %s))", r, r, topE), fmt.Sprintf("(= (select %s %s) (select %s %s))", cur, r, init, r)), nil, e.eng.posString(l.header.Instrs[0].Pos()))
+					}
+					nk := e.sc.fresh("lp."+k, srt)
+					e.sc.assert(fmt.Sprintf("(forall ((r Int)) (! (=> (and (>= r 0) (< r %s)) (= (select %s r) (select %s r))) :pattern ((select %s r))))", topE, nk, init, nk))
+					st.mem[k] = nk
+					e.loopHeads[l.ordinal][k] = loopHeadMem{term: init, refs: nil, top: topE, headName: nk}
+					delete(keys, k)
+					continue
+				}
+				srt := keys[k]
+				cur := e.memGet(st, k, srt)
+				elemSort := strings.TrimSuffix(strings.TrimPrefix(srt, "(Array Int "), ")")
+				nv := cur
+				for _, r := range refs {
+					fv := e.sc.fresh("lp."+k, elemSort)
+					e.assume(st, e.wfBySort(st, fv, elemSort))
+					nv = fmt.Sprintf("(store %s %s %s)", nv, r, fv)
+				}
+				e.memSet(st, k, srt, nv)
+				e.loopHeads[l.ordinal][k] = loopHeadMem{term: st.mem[k], refs: refs, top: e.top(st)}
+				delete(keys, k)
+			}
+		}
+	}
 	e.havocKeysSorted(st, keys, all)
 	// 3. assume the invariant
 	if lc != nil {
@@ -851,10 +938,26 @@ func (e *Exec) checkLoopBack(fn *ssa.Function, fc *FuncContract, l *loopInfo, st
 	if fc != nil {
 		lc = fc.Loops[l.ordinal]
 	}
+	pos := e.eng.posString(l.header.Instrs[0].Pos())
+	// loop frame: objects outside the modifies list are untouched by one iteration
+	if e.curFn == e.fn {
+		for _, k := range sortedKeys(e.loopHeads[l.ordinal]) {
+			h := e.loopHeads[l.ordinal][k]
+			cur := e.memGet(st, k, e.memSort[k])
+			if cur == h.term || cur == h.headName {
+				continue
+			}
+			r := e.sc.fresh("fr", "Int")
+			conds := []string{fmt.Sprintf("(>= %s 0)", r), fmt.Sprintf("(< %s %s)", r, h.top)}
+			for _, x := range h.refs {
+				conds = append(conds, not(eq(r, x)))
+			}
+			e.checkPost(st, "frame", fmt.Sprintf("loop%d.%s", l.ordinal, k), imp(and(conds...), fmt.Sprintf("(= (select %s %s) (select %s %s))", cur, r, h.term, r)), nil, pos)
+		}
+	}
 	if lc == nil {
 		return
 	}
-	pos := e.eng.posString(l.header.Instrs[0].Pos())
 	for i, cl := range lc.Invariants {
 		c := e.invCtx(fn, l, st)
 		c.where = fmt.Sprintf("%s:%d", cl.File, cl.Line)
@@ -880,6 +983,13 @@ func (e *Exec) checkLoopBack(fn *ssa.Function, fc *FuncContract, l *loopInfo, st
 
 func (e *Exec) havocKeysSorted(st *State, keys map[string]string, all bool) {
 	e.havocKeys(st, keys, all)
+}
+
+type loopHeadMem struct {
+	term     string
+	refs     []string
+	top      string
+	headName string
 }
 
 // ---------- recover ----------
